@@ -294,6 +294,17 @@ impl<'a> ArchiveReader<'a> {
                 }
             }
 
+            // Validation: entries are regular files or directories. Archives created by nextest
+            // never contain links (the archiver follows symlinks), and a link entry can redirect
+            // later entries to a location outside the target directory.
+            let entry_type = entry.header().entry_type();
+            if !(entry_type.is_file() || entry_type.is_dir()) {
+                return Err(ArchiveReadError::UnsupportedEntryType {
+                    path,
+                    entry_type: format!("{entry_type:?}"),
+                });
+            }
+
             // Validation: checksum matches.
             let mut header = entry.header().clone();
             let actual_cksum = header
